@@ -315,18 +315,39 @@ func C02(r *explore.Run) {
 func init() {
 	Registry["C01"] = C01
 	Registry["C02"] = C02
-	// the grammar space for tree-based checks: every sentence through its entry points
+	// the grammar space for tree-based checks: every sentence through its entry points; sentences with
+	// few deviations additionally in uniform re-spellings (positions must not depend on the trivia
+	// being single blanks, nor on the line-ending convention)
 	grammarTreeSpace = func(r *explore.Run, base int, body func(c *explore.Ctx, e *Entry, s string)) {
 		grammarSpace(r, "S4/grammar", base, func(c *explore.Ctx, s *grammar.Sentence) {
-			text := s.Text()
-			c.Input(text)
-			c.Sample(s.Root + ": " + text)
-			if se := specificEntry(s.Kind); se != "" {
-				body(c, EntryByName(se), text)
+			feed := func(text string) {
+				c.Input(text)
+				if se := specificEntry(s.Kind); se != "" {
+					body(c, EntryByName(se), text)
+				}
+				if isStatementKind(s.Kind) {
+					body(c, EntryByName("ParseStatement"), text)
+				}
 			}
-			if isStatementKind(s.Kind) {
-				body(c, EntryByName("ParseStatement"), text)
+			text := s.Text()
+			c.Sample(s.Root + ": " + text)
+			feed(text)
+			if c.Cost() <= base-2 || c.Cost() <= 1 {
+				for _, tr := range respellTrivia {
+					var b strings.Builder
+					for i, t := range s.Src {
+						b.WriteString(t.Text)
+						if i+1 < len(s.Src) && !t.NoGap {
+							b.WriteString(tr)
+						}
+					}
+					c.Count("respelled_sentences", 1)
+					feed(b.String())
+				}
 			}
 		})
 	}
 }
+
+// respellTrivia are the uniform gap spellings used by the tree-based checks.
+var respellTrivia = []string{"  ", "\r\n", " /*c*/ ", "\n-- c\n\t"}
